@@ -222,7 +222,7 @@ func (g *permGen[S, E]) value(t *T) S {
 	}
 
 	// shrink-friendly variant of Fisher–Yates shuffle: shrinks to lower number of smaller distance swaps
-	repeat := newRepeat(0, m, math.MaxInt, "permute")
+	repeat := newRepeat(0, m, math.MaxInt64, "permute")
 	for i := 0; repeat.more(t.s); i++ {
 		j, _, _ := genUintRange(t.s, uint64(i), uint64(n-1), false)
 		s[i], s[j] = s[j], s[i]
